@@ -21,15 +21,17 @@ Scope: see `bounds` in the result.  The oracle is rtc/refmodels/alphabets.py (sp
 the library is never used to compute an expected value.
 """
 import itertools
+import time
 
 from .common import Collector
-from .refmodels.alphabets import (ALPHABETS, ALIASES, up, alphabet_bytes, valid, all_valid, expected_text,
+from .refmodels.alphabets import (ALPHABETS, ALIASES, alphabet_bytes, valid, all_valid, expected_text,
                                   foreign_bytes, classify_foreign)
 
 ENC_NAMES = list(ALPHABETS)
 NUMERIC = {"Quality": 33, "NumDigit": 48, "CigarLen": 0}
 FLAT_PATHS = ["str", "encstr", "ndarray", "base"]
 RAGGED_PATHS = ["list", "enclist", "baseragged", "ragged", "nparr_U", "nparr_O", "series", "nd2", "list_of_base_arrays"]
+CORE_RAGGED = ["list", "enclist", "baseragged", "ragged", "nd2"]      # the others convert to a list of str first
 
 
 # ----------------------------------------------------------------------------------------------- library access
@@ -218,10 +220,12 @@ def eval_enc(col, case):
                       "%s: foreign input %r raised %s, not an encoding error: %s" % (name, rows, type(e).__name__, str(e)[:200]))
         return
     if path == "list_of_base_arrays" and getattr(r, "encoding", None) != enc:
-        # the whole region fails the same way: the target encoding is not applied at all
-        col.fail("as_encoded_array:list-of-encoded-arrays:target-encoding-ignored", case,
-                 "%s: as_encoded_array([base-encoded arrays], enc) returned encoding %r (text %r): "
-                 "neither validated nor upper-cased" % (name, getattr(r, "encoding", None), _safe(lambda: rows_of(r, lens))))
+        # the whole region fails the same way (the target encoding is not applied at all): one signature.  Only
+        # observable violations of the statement count: a foreign byte accepted, or text that is not the upper-cased input
+        got = _safe(lambda: rows_of(r, lens))
+        col.check(ok_expected and got == exp, "as_encoded_array:list-of-encoded-arrays:target-encoding-ignored", case,
+                  "%s: as_encoded_array([base-encoded arrays], enc) returned encoding %r and text %r for input %r: "
+                  "neither validated nor upper-cased" % (name, getattr(r, "encoding", None), got, [s_of(x) for x in rows]))
         return
     if not ok_expected:
         fb = foreign_bytes(allb, alphabet)
@@ -284,8 +288,11 @@ def eval_retarget(col, case):
         return
     try:
         got = [text_flat(r)] if is_flat else rows_of(r, lens)
-    except Exception:
-        return          # not silent: the returned object cannot be read as text (raises on observation)
+    except Exception as e:
+        # the call returned (did not raise), so the data it yielded must decode to the same text; it does not decode at all
+        col.fail("retarget:%s:result-not-decodable:%s" % (fn, type(e).__name__), case,
+                 "%s -> %s: %r was accepted but the result cannot be decoded: %s" % (src, dst, exp, str(e)[:200]))
+        return
     h = how_differs(got, exp)
     if h is None:
         return
@@ -534,7 +541,7 @@ def limits(tier, n):
         if small:
             return 4, 2, 1, 3
         if n <= 10:
-            return 3, 1, 1, 2
+            return 3, 1, 0, 2
         return 2, 1, 0, 2
     if small:
         return 5, 3, 2, 4
@@ -543,17 +550,20 @@ def limits(tier, n):
     return 3, 2, 1, 3
 
 
-def gen_cases(tier, rng):
+def gen_bytes(tier):
     # ---- 1. every byte x every alphabet x every flat path and the one-row / one-cell container paths
     for name in ENC_NAMES + ["DNAEncoding", "RNAENcoding", "fresh:acgtn"]:
         for b in range(256):
             for path in FLAT_PATHS:
                 yield {"k": "enc", "enc": name, "path": path, "data": [b]}
-            for path in RAGGED_PATHS:
+            for path in (RAGGED_PATHS if name in ALPHABETS or tier == "thorough" else ()):
                 if ragged_path_applicable(path, [[b]]):
                     yield {"k": "enc", "enc": name, "path": path, "rows": [[b]]}
     for name in ENC_NAMES:
         yield {"k": "observers", "enc": name}
+
+
+def gen_strings(tier):
     # ---- 2. strings: valid (all case variants) and one foreign byte at every position
     for name in ENC_NAMES:
         alphabet = ALPHABETS[name]
@@ -574,6 +584,9 @@ def gen_cases(tier, rng):
             for d in insertions(base, allf):
                 for path in ("str", "ndarray"):
                     yield {"k": "enc", "enc": name, "path": path, "data": d}
+
+
+def gen_lists(tier):
     # ---- 3. lists of strings through every container kind
     max_rows, max_len = (3, 2)
     for name in ENC_NAMES:
@@ -583,11 +596,11 @@ def gen_cases(tier, rng):
         offsets = range(len(ab)) if (tier == "thorough" or len(ab) <= 5) else range(0, len(ab), 3)
         for lens in row_shapes(max_rows, max_len):
             for off in offsets:
-                for lm in (0, 1, 2):
+                for lm in ((0, 1, 2) if off == 0 or tier == "thorough" else (0, 1)):
                     rows = fill(lens, ab, off, lm)
                     if lm and rows == fill(lens, ab, off, 0):
                         continue
-                    for path in RAGGED_PATHS:
+                    for path in (RAGGED_PATHS if off == 0 or tier == "thorough" else CORE_RAGGED):
                         if ragged_path_applicable(path, rows):
                             yield {"k": "enc", "enc": name, "path": path, "rows": rows}
                     if sum(lens) == 0:
@@ -596,13 +609,13 @@ def gen_cases(tier, rng):
                     break
             # one foreign byte at every (row, position)
             base = fill(lens, ab, 0, 1)
-            fs = small if tier == "thorough" else small[:4] + small[-1:]
+            fs = small if tier == "thorough" else small[:3] + small[-1:]
             for ri in range(len(base)):
                 for p in range(len(base[ri]) + 1):
                     for f in fs:
                         rows = [list(r) for r in base]
                         rows[ri] = rows[ri][:p] + [f] + rows[ri][p:]
-                        for path in RAGGED_PATHS:
+                        for path in (RAGGED_PATHS if f == fs[0] or tier == "thorough" else CORE_RAGGED):
                             if ragged_path_applicable(path, rows):
                                 yield {"k": "enc", "enc": name, "path": path, "rows": rows}
         if tier == "thorough":
@@ -614,6 +627,9 @@ def gen_cases(tier, rng):
                     rows = [[next(it) for _ in range(n)] for n in lens]
                     for path in ("list", "baseragged", "ragged"):
                         yield {"k": "enc", "enc": name, "path": path, "rows": rows}
+
+
+def gen_retarget(tier):
     # ---- 4. re-targeting: every ordered pair of alphabets (plus an equal fresh alphabet, the base encoding, a numeric
     #         encoding as targets) x every string over the source alphabet
     targets = ENC_NAMES + ["fresh:ACGT", "Base", "Quality"]
@@ -626,8 +642,12 @@ def gen_cases(tier, rng):
                     yield {"k": "retarget", "src": src, "dst": dst, "fn": fn, "data": data}
         # ragged: every ordered pair of rows of length <= 1 (so the largest code sits in either row), plus 3-row shapes
         singles = [[]] + [[a] for a in ab]
-        lists = [[r1, r2] for r1 in singles for r2 in singles]
-        lists += [fill(lens, ab, off, 0) for lens in row_shapes(3, 2) if len(lens) == 3
+        if tier == "thorough":
+            lists = [[r1, r2] for r1 in singles for r2 in singles]
+        else:
+            few = [[], [ab[0]], [ab[1]], [ab[-1]]]
+            lists = [[r1, r2] for r1 in singles for r2 in few] + [[r1, r2] for r1 in few for r2 in singles if r2 not in few]
+        lists += [fill(lens, ab, off, 0) for lens in row_shapes(3, 2 if tier == "thorough" else 1) if len(lens) == 3
                   for off in (range(len(ab)) if tier == "thorough" else (0, len(ab) - 2))]
         lists += [[], [[]]]
         for rows in lists:
@@ -639,6 +659,9 @@ def gen_cases(tier, rng):
             for text in ("CA", "GT", "AA", "TG"):
                 yield {"k": "retarget_other", "src": "kmer", "dst": dst, "fn": fn, "text": text}
             yield {"k": "retarget_other", "src": "string", "dst": dst, "fn": fn, "labels": ["C", "A", "T"], "texts": ["A", "C", "T", "A"]}
+
+
+def gen_numeric(tier):
     # ---- 5. numeric offset encodings
     for name, lo in NUMERIC.items():
         for b in range(lo, 256):
@@ -652,6 +675,12 @@ def gen_cases(tier, rng):
             yield {"k": "numeric", "enc": name, "path": "list", "rows": rows}
         yield {"k": "numeric", "enc": name, "path": "str", "rows": [hi]}
         yield {"k": "numeric", "enc": name, "path": "ndarray", "rows": [[lo, 255, 200, lo]]}
+
+
+def gen_cases(tier, rng=None):
+    """order: cheap and defect-prone parts first, so that a cut by the time budget loses the least"""
+    for g in (gen_bytes, gen_numeric, gen_retarget, gen_strings, gen_lists):
+        yield from g(tier)
 
 
 def sampled_cases(tier, rng, n):
@@ -705,9 +734,10 @@ def run(tier="quick", seed=0):
         if (col.evaluations & 255) == 0 and col.out_of_time():
             break
     else:
-        for case in sampled_cases(tier, col.rng, 300 if tier == "quick" else 3000):
+        # above the bounds: sampling; running out of time here does not make the enumeration below the bounds incomplete
+        for case in sampled_cases(tier, col.rng, 300 if tier == "quick" else 5000):
             evaluate(col, case)
-            if col.out_of_time():
+            if time.time() - col.t0 > col.budget_s:
                 break
     return col.result()
 
